@@ -521,6 +521,13 @@ class VOpaque(V):
         self.tag = tag
 
 
+class VNaN(V):
+    """float('nan'): floats are mathematical reals in this engine (A-REAL); this is the single non-finite float value it
+    can represent, and only as a python-side constant (spec constructor `nan()`): every ordering comparison and ==
+    with it is False, math.isfinite is False, float()/abs() keep it.  Arithmetic on it is not modelled."""
+    t = None
+
+
 class VUndef(V):
     """spec mode only: the value of a partial operation outside its domain (e.g. None[0]).
     Any predicate over it is an unconstrained boolean, so a clause that depends on it cannot be proved."""
